@@ -38,6 +38,12 @@ var propStandins = map[string][]Standin{
 		Bound:   "stability of a view over its lifetime (the copy-on-write discipline of every writer in the manager; only the enumeration kernel of a view is under contract): 25 (quick) / 250 (thorough) seeded histories of 12 / 16 manager calls out of AddTag (mark, tag, service with 6 definitions), mark add / mark delete, definition updates, imports of 4 more streams (up to 16), opening a view (at most 3 alive), releasing a view; every live view is asked again after every call - all streams with byte counts, HasTag for every tag it knew when it was opened, and searches for and against each of these tags - and must answer exactly as it did when it was opened. Background jobs (tagging, merging) run as they come; their interleaving is not controlled",
 		Timeout: 10 * time.Minute,
 	}},
+	"C13": {{
+		Name: "refcount", Pkg: "internal/index/manager", TestFile: "refcount_standin_test.go", TestName: "TestC13Standin", OutEnv: "C13_OUT",
+		EnvQuick: []string{"C13_HISTORIES=12", "C13_LEN=30"}, EnvThorough: []string{"C13_HISTORIES=120", "C13_LEN=40"},
+		Bound:   "life time of index files across holders and goroutine hand-offs (only lock/release and the pairing inside each completion closure are under contract): 12 (quick) / 120 (thorough) seeded histories of 30 / 40 manager calls out of small imports (1-3 packets, new conversations and more data for old ones; enough of them trigger merges), AddTag / definition updates (tagging jobs), opening a view (at most 4 alive) and reading it, releasing a view, pauses; after every call every held view must still be able to read all its streams with payload (by enumeration and by id) and every index file it references must exist; at the end all views are released, the service is left alone until nothing runs, and then the index directory must hold exactly the files the service serves from, every served file must be counted exactly once, nothing else may be counted, Status.IndexLockCount must equal the number of served files and a fresh view must read everything. The interleaving of job completions is whatever the scheduler produces; converter jobs are not generated",
+		Timeout: 10 * time.Minute,
+	}},
 	"C07": {{
 		Name: "merge-roundtrip", Pkg: "internal/index", TestFile: "roundtrip_standin_test.go", TestName: "TestC01Standin", OutEnv: "C01_OUT",
 		EnvQuick: []string{"C01_MERGE=1", "C01_ROUNDS=60", "C01_MERGE_HOSTS=4000"}, EnvThorough: []string{"C01_MERGE=1", "C01_ROUNDS=600", "C01_MERGE_HOSTS=4090"},
